@@ -664,6 +664,31 @@ type vfVersion struct {
 func VfVersions() {
 	nops := 2 + zzvf.Tier()
 	zzvf.Bound("operations_max", nops)
+	vfVersionsBody(1+zzvf.Choice("operations", nops), 5, nil)
+}
+
+// VfVersionsSuspend: C09 – the same oracle over programs that switch the bucket between Enabled and Suspended: one
+// operation (put / delete / delete newest by id) while enabled, one while suspended, then up to two more while enabled
+// again. While suspended a write or delete without id replaces the null version (or marker) and keeps every version
+// that has a real id.
+func VfVersionsSuspend() {
+	status := []bool{true, false, true, true}
+	n := 3 + zzvf.Choice("fourth_operation", 2)
+	zzvf.Bound("operations_max", 4)
+	vfVersionsBody(n, 3, status)
+}
+
+func vfDropNull(hist []vfVersion) []vfVersion {
+	var out []vfVersion
+	for _, v := range hist {
+		if v.id != "null" {
+			out = append(out, v)
+		}
+	}
+	return out
+}
+
+func vfVersionsBody(n, kinds int, status []bool) {
 	vfWorld()
 	p := vfNewPosix(vfConfig{versioning: true})
 	vfMustBucket(p, "bkt")
@@ -677,10 +702,18 @@ func VfVersions() {
 		hist = append(hist, vfVersion{id: "null", data: b})
 	}
 	zzvf.Assert(p.PutBucketVersioning(vfCtx(), "bkt", types.BucketVersioningStatusEnabled) == nil, "setup-enable-versioning")
+	enabled := true
 	ids := map[string]bool{"null": true}
-	n := 1 + zzvf.Choice("operations", nops)
 	for i := 0; i < n; i++ {
-		switch zzvf.Choice("op", 5) {
+		if status != nil && status[i] != enabled {
+			enabled = status[i]
+			st := types.BucketVersioningStatusSuspended
+			if enabled {
+				st = types.BucketVersioningStatusEnabled
+			}
+			zzvf.Assert(p.PutBucketVersioning(vfCtx(), "bkt", st) == nil, "switch-versioning-status")
+		}
+		switch zzvf.Choice("op", kinds) {
 		case 3: // multipart upload (one part of two bytes) onto the key
 			b := zzvf.BytesN("mp_body", 2)
 			up, err := p.CreateMultipartUpload(vfCtx(), s3response.CreateMultipartUploadInput{Bucket: vfStr("bkt"), Key: &key})
@@ -721,6 +754,11 @@ func VfVersions() {
 			b := zzvf.BytesN("body", 1)
 			out, err := p.PutObject(vfCtx(), s3response.PutObjectInput{Bucket: vfStr("bkt"), Key: &key, Body: bytes.NewReader(b), ContentLength: &one})
 			zzvf.Assert(err == nil, "put-succeeds")
+			if !enabled {
+				// suspended: the write becomes the null version, replacing the previous null version or marker
+				hist = append(vfDropNull(hist), vfVersion{id: "null", data: b})
+				continue
+			}
 			zzvf.Assert(zzvf.And(out.VersionID != "", !ids[out.VersionID]), "every-write-yields-a-new-distinct-version-id")
 			ids[out.VersionID] = true
 			hist = append(hist, vfVersion{id: out.VersionID, data: b})
@@ -730,6 +768,11 @@ func VfVersions() {
 				continue // deleting a key that never existed: S3 creates a marker too; the gateway may answer either way
 			}
 			zzvf.Assert(err == nil, "delete-succeeds")
+			if !enabled {
+				// suspended: a null delete marker replaces the previous null version or marker
+				hist = append(vfDropNull(hist), vfVersion{id: "null", marker: true})
+				continue
+			}
 			if err == nil && out != nil && out.VersionId != nil {
 				zzvf.Assert(!ids[*out.VersionId], "delete-marker-has-a-new-id")
 				ids[*out.VersionId] = true
